@@ -203,6 +203,12 @@ func DriveC02(w *ev.Writer, o Opts) {
 		}
 		tableEvent(w, fmt.Sprintf("corpus:%d:%dB", i, len(b)), roots, rng)
 	}
+	if o.Shard == 0 {
+		// the depth bound: 1025 cells in a chain (depth 1024) exist, 1026 do not
+		for _, n := range []int{1025, 1026} {
+			tableEvent(w, fmt.Sprintf("mem-chain:%d", n), []*boc.Cell{chain(n)}, rng)
+		}
+	}
 	nmem := 12
 	if o.thorough() {
 		nmem = 150
